@@ -397,6 +397,17 @@ func (x *xGen) quant(depth int) *xPart {
 func (x *xGen) list(depth int) *xPart {
 	p := &xPart{kind: xList, plus: x.r.Intn(2) == 0}
 	n := 1 + x.r.Intn(2)
+	if x.r.Intn(100) < 30 {
+		// the element IS a separator-less list: (a+ separator b)+, ((a | b)* separator c)*
+		inner := x.sym()
+		if depth > 0 && x.r.Intn(3) == 0 {
+			inner = x.nested(depth, 1+x.r.Intn(2))
+		}
+		p.parts = []*xPart{{kind: xQuant, plus: x.r.Intn(2) == 0, inner: inner}}
+		x.feat["nested-list"] = true
+		x.feat["separated list of a plain list"] = true
+		n = 0
+	}
 	for i := 0; i < n; i++ {
 		p.parts = append(p.parts, x.part(depth))
 	}
@@ -1425,7 +1436,7 @@ func c13(c *Ctx) {
 	}
 	c.Extra["probe_empty_set_defect_present"] = emptySetBroken
 	c.Extra["probe_set_intersect_alias_defect_present"] = aliasBroken
-	c.Rule = "random surface trees of the rule notation over 2-4 single-character terminals and 1-4 nonterminals (rules of 0-4 parts, depth <= 3: optional parts, nested choices and sequences in parentheses, + and * quantifiers, (.. separator ..)+/* lists with 1-2 separator terminals, lists of lists, set(...) with terminals / first / last / any / | & ~, lookahead markers, state markers, arrows, %prec, assignments, commands, Xopt references; 40% of the quantified lists over a plain symbol reuse an earlier list element verbatim or as (.m X) / (X | %empty) / (X -> A) / (X {}) so that extractNonterm sees equal provisional names with equal and with different expressions; 14% of the grammars get a FAMILY of 2-3 set(...) clauses with the same flat atom/operator/~ sequence but different grouping (same provisional name, e.g. set(~('a' | 'b')) and set(~'a' | 'b')), 14% a family of lists over one element with different separators of equal length (multi-terminal separators are all named _withsep)); " +
+	c.Rule = "random surface trees of the rule notation over 2-4 single-character terminals and 1-4 nonterminals (rules of 0-4 parts, depth <= 3: optional parts, nested choices and sequences in parentheses, + and * quantifiers, (.. separator ..)+/* lists with 1-2 separator terminals, lists of lists, set(...) with terminals / first / last / any / | & ~, lookahead markers, state markers, arrows, %prec, assignments, commands, Xopt references; 40% of the quantified lists over a plain symbol reuse an earlier list element verbatim or as (.m X) / (X | %empty) / (X -> A) / (X {}) so that extractNonterm sees equal provisional names with equal and with different expressions; 14% of the grammars get a FAMILY of 2-3 set(...) clauses with the same flat atom/operator/~ sequence but different grouping (same provisional name, e.g. set(~('a' | 'b')) and set(~'a' | 'b')), 14% a family of lists over one element with different separators of equal length (multi-terminal separators are all named _withsep); 30% of the separated lists have a separator-less list as their whole element ((a+ separator b)+)); " +
 		"path tm: rendered as .tm text and compiled by the REAL compiler.Compile (LALR conflicts ignored, the rules are read from grammar.Parser.Rules); path model: the same trees as syntax.Model values with a random subset of lists right-recursive, through the real Expand/ResolveSets/generateTables (hook VerifModelGrammar); " +
 		"per grammar: struct (real rules vs Lean mirror, canonical form up to renaming of extracted nonterminals and rule order; mid-rule action nonterminals erased), sem (every string up to length 4-7 depending on alphabet size, every user nonterminal: brute-force derivability in the REAL rules vs the denotation evaluated in Lean), mem (random sentences of the real rules and their mutations, length up to 12); non-trivial = uses at least one extended construct, distinct by grammar text. " +
 		"Known defect classes, each probed on ONE fixed witness at start-up, reported through that witness and kept out of the random stream only while the probe shows the defect (VERIF_FINDINGS=1 keeps them in): [C13-empty-set] a set(...) that resolves to no terminal becomes an EMPTY RULE (derives the empty string) instead of deriving nothing; [C13-set-intersect-alias] an intersection whose first operand is a complement, e.g. set(~'c' & ('a' | 'c')), resolves to wrong terminals (util/set closure reuses its buffer). Also skipped: complements of nonterminal-dependent sets (may be cyclic); grammars on which the compiler panics (mid-rule action inside a list element next to a nested list; a C22 matter) are counted as rejected."
